@@ -18,16 +18,72 @@ theorem anyCondHolds_perm {bs bs' : List RBranch} (h : bs.Perm bs') : anyCondHol
   | swap b c l => simp only [anyCondHolds]; cases c.condHolds <;> cases b.condHolds <;> simp
   | trans _ _ ih1 ih2 => exact ih1.trans ih2
 
-theorem doneBranches_perm_aux (a : Answered) (sc : Bool) {bs bs' : List RBranch} (h : bs.Perm bs') :
-    doneBranches a sc bs = doneBranches a sc bs' := by
+/-- … which condition branches have ended (as a set) … -/
+theorem termIds_perm (a : Answered) {bs bs' : List RBranch} (h : bs.Perm bs') : (termIds a bs).Perm (termIds a bs') := by
   induction h with
-  | nil => rfl
-  | cons b _ ih => simp [doneBranches, ih]
-  | swap b c l => simp only [doneBranches]; cases doneBranch a sc c <;> cases doneBranch a sc b <;> simp
+  | nil => exact List.Perm.refl _
+  | cons b _ ih => simp only [termIds]; exact List.Perm.append_left _ ih
+  | swap b c l =>
+    simp only [termIds]
+    rw [← List.append_assoc, ← List.append_assoc]
+    exact List.Perm.append_right _ List.perm_append_comm
   | trans _ _ ih1 ih2 => exact ih1.trans ih2
 
-theorem opensBranches_perm_aux (a : Answered) (sc : Bool) {bs bs' : List RBranch} (h : bs.Perm bs') :
-    (opensBranches a sc bs).Perm (opensBranches a sc bs') := by
+/-- whether a `needs` list is satisfied depends on the set of ended siblings only -/
+theorem ready_congr (ns : List String) {tm tm' : List String} (h : ∀ n, n ∈ tm ↔ n ∈ tm') :
+    ns.any (tm.contains ·) = ns.any (tm'.contains ·) := by
+  have hf : (fun n => tm.contains n) = (fun n => tm'.contains n) := by
+    funext n
+    have := h n
+    cases h1 : tm.contains n <;> cases h2 : tm'.contains n <;> simp_all
+  rw [hf]
+
+theorem doneBranch_congr (a : Answered) (sc : Bool) {tm tm' : List String} (h : ∀ n, n ∈ tm ↔ n ∈ tm') (b : RBranch) :
+    doneBranch a sc tm b = doneBranch a sc tm' b := by
+  cases b with
+  | mk i g ss => cases g <;> simp only [doneBranch, ready_congr _ h]
+
+theorem opensBranch_congr (a : Answered) (sc : Bool) {tm tm' : List String} (h : ∀ n, n ∈ tm ↔ n ∈ tm') (b : RBranch) :
+    opensBranch a sc tm b = opensBranch a sc tm' b := by
+  cases b with
+  | mk i g ss => cases g <;> simp only [opensBranch, ready_congr _ h]
+
+theorem statesBranch_congr (a : Answered) (sc sd : Bool) {tm tm' : List String} (h : ∀ n, n ∈ tm ↔ n ∈ tm') (b : RBranch) :
+    statesBranch a sc sd tm b = statesBranch a sc sd tm' b := by
+  cases b with
+  | mk i g ss => cases g <;> simp only [statesBranch, ready_congr _ h]
+
+theorem holdingDone_congr (a : Answered) {tm tm' : List String} (h : ∀ n, n ∈ tm ↔ n ∈ tm') (b : RBranch) :
+    holdingDone a tm b = holdingDone a tm' b := by
+  cases b with
+  | mk i g ss =>
+    cases g with
+    | cond hc => cases hc <;> simp [holdingDone]
+    | otherwise => simp [holdingDone]
+    | needs ns => simp only [holdingDone, ready_congr _ h]
+
+theorem doneBranches_perm_aux (a : Answered) (sc : Bool) {tm tm' : List String} (hm : ∀ n, n ∈ tm ↔ n ∈ tm') {bs bs' : List RBranch}
+    (h : bs.Perm bs') : doneBranches a sc tm bs = doneBranches a sc tm' bs' := by
+  induction h with
+  | nil => rfl
+  | cons b _ ih => simp [doneBranches, ih, doneBranch_congr a sc hm b]
+  | swap b c l =>
+    have hl : doneBranches a sc tm l = doneBranches a sc tm' l := by
+      induction l with
+      | nil => rfl
+      | cons x xs ihx => simp [doneBranches, ihx, doneBranch_congr a sc hm x]
+    simp only [doneBranches, doneBranch_congr a sc hm b, doneBranch_congr a sc hm c, hl]
+    cases doneBranch a sc tm' c <;> cases doneBranch a sc tm' b <;> simp
+  | trans h1 h2 ih1 ih2 =>
+    have hrefl : ∀ l : List RBranch, doneBranches a sc tm l = doneBranches a sc tm' l := by
+      intro l
+      induction l with
+      | nil => rfl
+      | cons x xs ihx => simp [doneBranches, ihx, doneBranch_congr a sc hm x]
+    rw [ih1, ← hrefl, ih2]
+
+theorem opensBranches_perm_aux (a : Answered) (sc : Bool) (tm : List String) {bs bs' : List RBranch} (h : bs.Perm bs') :
+    (opensBranches a sc tm bs).Perm (opensBranches a sc tm bs') := by
   induction h with
   | nil => exact List.Perm.refl _
   | cons b _ ih => simp only [opensBranches]; exact List.Perm.append_left _ ih
@@ -37,16 +93,28 @@ theorem opensBranches_perm_aux (a : Answered) (sc : Bool) {bs bs' : List RBranch
     exact List.Perm.append_right _ List.perm_append_comm
   | trans _ _ ih1 ih2 => exact ih1.trans ih2
 
-theorem anyHoldingDone_perm (a : Answered) {bs bs' : List RBranch} (h : bs.Perm bs') :
-    anyHoldingDone a bs = anyHoldingDone a bs' := by
+theorem opensBranches_congr (a : Answered) (sc : Bool) {tm tm' : List String} (hm : ∀ n, n ∈ tm ↔ n ∈ tm') (bs : List RBranch) :
+    opensBranches a sc tm bs = opensBranches a sc tm' bs := by
+  induction bs with
+  | nil => rfl
+  | cons x xs ih => simp [opensBranches, ih, opensBranch_congr a sc hm x]
+
+theorem anyHoldingDone_perm (a : Answered) (tm : List String) {bs bs' : List RBranch} (h : bs.Perm bs') :
+    anyHoldingDone a tm bs = anyHoldingDone a tm bs' := by
   induction h with
   | nil => rfl
   | cons b _ ih => simp [anyHoldingDone, ih]
-  | swap b c l => simp only [anyHoldingDone]; cases holdingDone a c <;> cases holdingDone a b <;> simp
+  | swap b c l => simp only [anyHoldingDone]; cases holdingDone a tm c <;> cases holdingDone a tm b <;> simp
   | trans _ _ ih1 ih2 => exact ih1.trans ih2
 
-theorem statesBranches_perm_aux (a : Answered) (sc sd : Bool) {bs bs' : List RBranch} (h : bs.Perm bs') :
-    (statesBranches a sc sd bs).Perm (statesBranches a sc sd bs') := by
+theorem anyHoldingDone_congr (a : Answered) {tm tm' : List String} (hm : ∀ n, n ∈ tm ↔ n ∈ tm') (bs : List RBranch) :
+    anyHoldingDone a tm bs = anyHoldingDone a tm' bs := by
+  induction bs with
+  | nil => rfl
+  | cons x xs ih => simp [anyHoldingDone, ih, holdingDone_congr a hm x]
+
+theorem statesBranches_perm_aux (a : Answered) (sc sd : Bool) (tm : List String) {bs bs' : List RBranch} (h : bs.Perm bs') :
+    (statesBranches a sc sd tm bs).Perm (statesBranches a sc sd tm bs') := by
   induction h with
   | nil => exact List.Perm.refl _
   | cons b _ ih => simp only [statesBranches]; exact List.Perm.append_left _ ih
@@ -56,6 +124,12 @@ theorem statesBranches_perm_aux (a : Answered) (sc sd : Bool) {bs bs' : List RBr
     exact List.Perm.append_right _ List.perm_append_comm
   | trans _ _ ih1 ih2 => exact ih1.trans ih2
 
+theorem statesBranches_congr (a : Answered) (sc sd : Bool) {tm tm' : List String} (hm : ∀ n, n ∈ tm ↔ n ∈ tm') (bs : List RBranch) :
+    statesBranches a sc sd tm bs = statesBranches a sc sd tm' bs := by
+  induction bs with
+  | nil => rfl
+  | cons x xs ih => simp [statesBranches, ih, statesBranch_congr a sc sd hm x]
+
 /-- **the result does not depend on the declaration order of branches**: permuting the branches of a step changes neither
 whether the step is finished, nor (up to order) the interrupts it waits on, nor the nodes that ran and their states -/
 theorem perm_branches (a : Answered) (i : String) (c : Bool) (as : List RAct) {bs bs' : List RBranch} (h : bs.Perm bs') :
@@ -63,7 +137,8 @@ theorem perm_branches (a : Answered) (i : String) (c : Bool) (as : List RAct) {b
     (opensStep a (.mk i c bs as)).Perm (opensStep a (.mk i c bs' as)) ∧
     (statesStep a (.mk i c bs as)).Perm (statesStep a (.mk i c bs' as)) := by
   have hc := anyCondHolds_perm h
-  have hd := doneBranches_perm_aux a (anyCondHolds bs) h
+  have hm : ∀ n, n ∈ termIds a bs ↔ n ∈ termIds a bs' := fun n => (termIds_perm a h).mem_iff
+  have hd := doneBranches_perm_aux a (anyCondHolds bs) hm h
   refine ⟨?_, ?_, ?_⟩
   · simp only [doneStep]; rw [← hc, hd]
   · simp only [opensStep]
@@ -71,34 +146,94 @@ theorem perm_branches (a : Answered) (i : String) (c : Bool) (as : List RAct) {b
     | false => exact List.Perm.refl _
     | true =>
       simp only [Bool.not_true, Bool.false_eq_true, ↓reduceIte]
-      rw [← hc]
-      exact List.Perm.append_right _ (opensBranches_perm_aux a _ h)
+      rw [← hc, ← opensBranches_congr a _ hm bs']
+      exact List.Perm.append_right _ (opensBranches_perm_aux a _ _ h)
   · simp only [statesStep]
     cases c with
     | false => exact List.Perm.refl _
     | true =>
       simp only [Bool.not_true, Bool.false_eq_true, ↓reduceIte]
-      rw [← hc, hd, ← anyHoldingDone_perm a h]
-      exact List.Perm.cons _ (List.Perm.append_right _ (statesBranches_perm_aux a _ _ h))
+      rw [← hc, hd, ← anyHoldingDone_congr a hm bs', ← anyHoldingDone_perm a _ h, ← statesBranches_congr a _ _ hm bs']
+      exact List.Perm.cons _ (List.Perm.append_right _ (statesBranches_perm_aux a _ _ _ h))
 
 /-- **the else branch runs iff no sibling condition held** -/
-theorem else_iff (a : Answered) (someCond someDone : Bool) (i : String) (ss : List RStep) :
-    statesBranch a someCond someDone (.mk i .otherwise ss) =
+theorem else_iff (a : Answered) (someCond someDone : Bool) (tm : List String) (i : String) (ss : List RStep) :
+    statesBranch a someCond someDone tm (.mk i .otherwise ss) =
       if someCond then [(i, if someDone then "skipped" else "pending")]
       else (i, if doneSteps a ss then "completed" else "running") :: statesSteps a ss := by
   cases someCond <;> simp [statesBranch]
 
 /-- in particular nothing beneath the else branch ever starts when a sibling condition held -/
-theorem else_never_starts (a : Answered) (someDone : Bool) (i : String) (ss : List RStep) :
-    (statesBranch a true someDone (.mk i .otherwise ss)).length = 1 := by
+theorem else_never_starts (a : Answered) (someDone : Bool) (tm : List String) (i : String) (ss : List RStep) :
+    (statesBranch a true someDone tm (.mk i .otherwise ss)).length = 1 := by
   simp [statesBranch]
 
 /-- every branch whose condition holds runs (its steps are started); one whose condition fails is skipped and nothing
 beneath it starts -/
-theorem cond_branch_runs (a : Answered) (sc sd h : Bool) (i : String) (ss : List RStep) :
-    statesBranch a sc sd (.mk i (.cond h) ss) =
+theorem cond_branch_runs (a : Answered) (sc sd h : Bool) (tm : List String) (i : String) (ss : List RStep) :
+    statesBranch a sc sd tm (.mk i (.cond h) ss) =
       if h then (i, if doneSteps a ss then "completed" else "running") :: statesSteps a ss else [(i, "skipped")] := by
   cases h <;> simp [statesBranch]
+
+/-- an id is among the ended condition branches only if such a branch exists and was skipped or has run to its end -/
+theorem termIds_sound (a : Answered) (bs : List RBranch) (n : String) (h : n ∈ termIds a bs) :
+    ∃ hc ss, RBranch.mk n (.cond hc) ss ∈ bs ∧ (hc = false ∨ doneSteps a ss = true) := by
+  induction bs with
+  | nil => simp [termIds] at h
+  | cons b bs ih =>
+    simp only [termIds, List.mem_append] at h
+    rcases h with h | h
+    · cases b with
+      | mk i g ss =>
+        cases g with
+        | cond hc =>
+          cases hc with
+          | false =>
+            simp only [termId, Bool.false_eq_true, ↓reduceIte, List.mem_singleton] at h
+            subst h
+            exact ⟨false, ss, List.mem_cons_self, Or.inl rfl⟩
+          | true =>
+            simp only [termId, ↓reduceIte] at h
+            cases hd : doneSteps a ss with
+            | false => simp [hd] at h
+            | true =>
+              simp only [hd, ↓reduceIte, List.mem_singleton] at h
+              subst h
+              exact ⟨true, ss, List.mem_cons_self, Or.inr hd⟩
+        | otherwise => simp [termId] at h
+        | needs ns => simp [termId] at h
+    · obtain ⟨hc, ss, hmem, hx⟩ := ih h
+      exact ⟨hc, ss, List.mem_cons_of_mem _ hmem, hx⟩
+
+/-- **a needs-branch starts after a needed sibling finished**: while none of the siblings it names has ended it is pending and nothing
+beneath it has started; once one has, it runs — whatever its own `if` says -/
+theorem needs_branch_waits (a : Answered) (sc sd : Bool) (tm : List String) (i : String) (ns : List String) (ss : List RStep) :
+    statesBranch a sc sd tm (.mk i (.needs ns) ss) =
+      if ns.any (tm.contains ·) then (i, if doneSteps a ss then "completed" else "running") :: statesSteps a ss else [(i, "pending")] := by
+  simp [statesBranch]
+
+/-- … so in a step, a `needs` branch that is past `pending` names a sibling condition branch that was skipped or has run to its end -/
+theorem needs_started_after_needed (a : Answered) (bs : List RBranch) (i : String) (ns : List String) (ss : List RStep)
+    (h : statesBranch a (anyCondHolds bs) (anyHoldingDone a (termIds a bs) bs) (termIds a bs) (.mk i (.needs ns) ss) ≠ [(i, "pending")]) :
+    ∃ n ∈ ns, ∃ hc ss', RBranch.mk n (.cond hc) ss' ∈ bs ∧ (hc = false ∨ doneSteps a ss' = true) := by
+  rw [needs_branch_waits] at h
+  cases hr : ns.any ((termIds a bs).contains ·) with
+  | false => rw [hr] at h; simp at h
+  | true =>
+    obtain ⟨n, hn, hc⟩ := List.any_eq_true.mp hr
+    exact ⟨n, hn, termIds_sound a bs n (by simpa using hc)⟩
+
+/-- the `else` branch never runs beside a `needs` branch (a `needs` branch is never skipped, so the siblings of the `else` branch are
+never all skipped) -/
+theorem needs_takes_the_step (i : String) (ns : List String) (ss : List RStep) (bs : List RBranch)
+    (h : RBranch.mk i (.needs ns) ss ∈ bs) : anyCondHolds bs = true := by
+  induction bs with
+  | nil => cases h
+  | cons b bs ih =>
+    simp only [anyCondHolds, Bool.or_eq_true]
+    rcases List.mem_cons.mp h with h | h
+    · left; subst h; rfl
+    · exact Or.inr (ih h)
 
 /-- **a step starts only after its predecessor is terminal**: while a step of a list is unfinished, nothing of the later
 steps has started and only it can be waiting -/
@@ -124,6 +259,18 @@ theorem skipped_step_continues (a : Answered) (i : String) (bs : List RBranch) (
 theorem skipped_act_continues (a : Answered) (i : String) (xs : List RAct) :
     statesActs a (.irq i false :: xs) = (i, "skipped") :: statesActs a xs := by
   simp [statesActs, statesAct, doneAct]
+
+/-- non-vacuity of the `needs` clauses: `b2` needs `b1`; while `a1` is unanswered `b2` is pending and nothing beneath it has started, the
+`else` branch `b3` does not run; once `a1` is answered `b2` runs and waits on `a2` -/
+example : statesStep (fun _ => false) (.mk "s1" true [.mk "b1" (.cond true) [.mk "s2" true [] [.irq "a1" true]],
+    .mk "b2" (.needs ["b1"]) [.mk "s3" true [] [.irq "a2" true]], .mk "b3" .otherwise []] []) =
+    [("s1", "running"), ("b1", "running"), ("s2", "running"), ("a1", "interrupted"), ("b2", "pending"), ("b3", "pending")] := by decide
+example : statesStep (fun i => i == "a1") (.mk "s1" true [.mk "b1" (.cond true) [.mk "s2" true [] [.irq "a1" true]],
+    .mk "b2" (.needs ["b1"]) [.mk "s3" true [] [.irq "a2" true]], .mk "b3" .otherwise []] []) =
+    [("s1", "running"), ("b1", "completed"), ("s2", "completed"), ("a1", "completed"), ("b2", "running"), ("s3", "running"),
+     ("a2", "interrupted"), ("b3", "skipped")] := by decide
+example : wfStep (.mk "s1" true [.mk "b1" (.cond true) [], .mk "b2" (.needs ["b1"]) []] []) = true ∧
+    wfStep (.mk "s1" true [.mk "b1" .otherwise [], .mk "b2" (.needs ["b1"]) []] []) = false := by decide
 
 /-- non-vacuity: permuting the three branches of the example leaves the outcome unchanged -/
 example : (statesStep (fun i => i == "a1") (.mk "s1" true [.mk "b3" .otherwise [], .mk "b1" (.cond true) [.mk "s2" true [] [.irq "a1" true]],
